@@ -330,6 +330,62 @@ def r157(ctx):
             ctx.ok(rid, st, f"default limit `{short(st.value, 40)}` derives from the segments' limits only")
 
 
+def r158(ctx):
+    """Path.copy / Path.reverse fill the new path under the source path's own limit: Path.append
+    refuses (silently) at `maxlen`, so the limit that is in force *while the frames are appended*
+    must be self.maxlen - passed to the constructor, or stored on the new path before the loop."""
+    rid = "R-15.8"
+    cls = ctx.tree.cls(PATH, "Path")
+    methods = {s.name: s for s in cls.body if isinstance(s, FUNC)}
+    ctor_default = None
+    ep = methods.get("empty_path")
+    if ep is not None:
+        for a, d in zip(reversed(ep.args.args), reversed(ep.args.defaults)):
+            if a.arg == "maxlen":
+                ctor_default = ast.unparse(d)
+    for name in ("copy", "reverse"):
+        f = methods.get(name)
+        if f is None:
+            raise AnalysisError(f"R-15.8: Path.{name} not found")
+        fl = flow_of(f)
+        cfg = fl.cfg
+        news = [st for st in walk_local(f) if isinstance(st, ast.Assign) and isinstance(st.targets[0], ast.Name) and isinstance(st.value, ast.Call) and last_name(st.value) in ("empty_path", "Path", "__class__")]
+        if not news:
+            raise AnalysisError(f"R-15.8: Path.{name} creates no new path (cannot decide)")
+        for st in news:
+            nm = st.targets[0].id
+            call = st.value
+            arg = kwarg(call, "maxlen")
+            if arg is None and call.args and last_name(call) != "empty_path":
+                arg = call.args[0]
+            if arg is None and call.args and last_name(call) == "empty_path":
+                arg = call.args[0]
+
+            def own_limit(e, at):
+                if isinstance(e, ast.Name):
+                    e, _ = deref(fl, e, at)
+                return isinstance(e, ast.Attribute) and e.attr == "maxlen" and isinstance(e.value, ast.Name) and e.value.id == "self"
+
+            apps = [c for c in walk_local(f) if isinstance(c, ast.Call) and isinstance(c.func, ast.Attribute) and c.func.attr == "append" and path_of(c.func.value) in (nm, nm + ".phasepoints")]
+            direct = [c for c in apps if path_of(c.func.value) == nm + ".phasepoints"]
+            apps = [c for c in apps if path_of(c.func.value) == nm]
+            if not apps:
+                if direct:
+                    ctx.ok(rid, st, f"Path.{name}: frames are added to the frame list directly (no limit applies)")
+                continue
+            if arg is not None and own_limit(arg, cfg.node_of(st)):
+                ctx.ok(rid, st, f"Path.{name}: the new path is created with the source path's own limit (`{short(call, 50)}`)")
+                continue
+            # a store new.maxlen = self.maxlen that dominates every append
+            stores = [s2 for s2 in walk_local(f) if isinstance(s2, ast.Assign) and any(isinstance(t, ast.Attribute) and t.attr == "maxlen" and isinstance(t.value, ast.Name) and t.value.id == nm for t in s2.targets) and own_limit(s2.value, cfg.node_of(s2))]
+            if stores and all(any(cfg.dominates(cfg.node_of(s2), cfg.node_of(c)) for s2 in stores) for c in apps):
+                ctx.ok(rid, st, f"Path.{name}: the source path's limit is stored on the new path before any frame is appended")
+                continue
+            lim = f"`{short(arg, 30)}`" if arg is not None else f"the default of the constructor ({ctor_default})"
+            ctx.bad(rid, st, f"Path.{name} appends the frames to a path whose limit is {lim}, not self.maxlen, while they are copied (`{short(call, 50)}`): Path.append refuses silently at the limit, so a path longer than that limit (its own limit being larger or None) loses its tail in the copy - a later `maxlen` assignment does not bring the frames back",
+                    construct=f"Path.{name}: new path not created under self.maxlen")
+
+
 def r153(ctx):
     """paste_paths: backward segment reversed, then the forward segment minus exactly one shared
     point iff `overlap`; every visited frame is appended; Path.append refuses at the limit."""
@@ -658,6 +714,8 @@ def run(ctx):
     ctx.attempt(r153, ctx)
     ctx.rule("R-15.7", "pasting up to the length limit: the default limit of paste_paths derives from the two segments' limits (.maxlen), never from a current length", floor=2)
     ctx.attempt(r157, ctx)
+    ctx.rule("R-15.8", "a copy / reversed copy holds every frame of the source: while frames are appended the new path's limit is the source path's own limit (constructor argument, or stored before the loop)", floor=2)
+    ctx.attempt(r158, ctx)
     ctx.attempt(r154, ctx)
     ctx.rule("R-15.5", "the extreme values used by the classification are those of the current frames: recomputed on every call, or memoised with invalidation at every site that changes a frame list", floor=2)
     ctx.attempt(r155, ctx)
@@ -666,6 +724,10 @@ def run(ctx):
 
 
 VARIANTS = [
+    B("c15-copy-filled-under-the-default-limit", PATH, "        new_path = self.empty_path(maxlen=self.maxlen)\n        for phasepoint in self.phasepoints:", "        new_path = self.empty_path()\n        for phasepoint in self.phasepoints:", "R-15.8", control=True, why="seeded C15_n"),
+    B("c15-reverse-filled-under-the-default-limit", PATH, "        new_path = self.empty_path(maxlen=self.maxlen)\n        new_path.weights = self.weights", "        new_path = self.empty_path()\n        new_path.weights = self.weights", "R-15.8", why="sibling of C15_n in Path.reverse"),
+    K("c15-keep-copy-limit-stored-before-the-loop", PATH, "        new_path = self.empty_path(maxlen=self.maxlen)\n        for phasepoint in self.phasepoints:", "        new_path = self.empty_path()\n        new_path.maxlen = self.maxlen\n        for phasepoint in self.phasepoints:"),
+    K("c15-keep-copy-limit-positional", PATH, "        new_path = self.empty_path(maxlen=self.maxlen)\n        for phasepoint in self.phasepoints:", "        limit = self.maxlen\n        new_path = self.empty_path(limit)\n        for phasepoint in self.phasepoints:"),
     B("c15-default-limit-from-forward-length", PATH, "            maxlen = max(path_back.maxlen, path_forw.maxlen)", "            maxlen = max(path_back.maxlen, path_forw.length)", "R-15.7", control=True, why="seeded C15_l"),
     B("c15-default-limit-smaller-of-two", PATH, "            maxlen = max(path_back.maxlen, path_forw.maxlen)", "            maxlen = min(path_back.maxlen, path_forw.maxlen)", "R-15.7"),
     K("c15-keep-default-limit-sorted", PATH, "            maxlen = max(path_back.maxlen, path_forw.maxlen)", "            maxlen = max(path_forw.maxlen, path_back.maxlen)"),
